@@ -138,8 +138,10 @@ Lemma K_release : forall e f, K e -> K (release e f). Proof. intros e; ksame e. 
 Lemma K_skip : forall e s, K e -> K (skip e s). Proof. intros e; ksame e. Qed.
 Lemma K_emit : forall e h d, K e -> K (emit e h d).
 Proof. intros e h d HK. unfold emit. destruct (e_gone e); [apply K_set_fail; exact HK|]. destruct d; apply K_set_out; exact HK. Qed.
+Lemma K_emit_frames : forall ps e k i, K e -> K (emit_frames e k i ps).
+Proof. unfold emit_frames. induction ps as [|p ps IH]; intros e k i HK; cbn [fold_left]; [exact HK|]. apply IH. apply K_emit. exact HK. Qed.
 Lemma K_emit_data : forall ps e k i, K e -> K (emit_data e k i ps).
-Proof. unfold emit_data. induction ps as [|p ps IH]; intros e k i HK; cbn [fold_left]; [exact HK|]. apply IH. apply K_emit. exact HK. Qed.
+Proof. intros ps e k i HK. unfold emit_data. apply K_upd_neutral; [apply K_emit_frames; exact HK|intros s; reflexivity]. Qed.
 Lemma K_fold_release : forall rel e, K e -> K (fold_left release rel e).
 Proof. induction rel as [|f rel IH]; intros e HK; cbn [fold_left]; [exact HK|]. apply IH, K_release, HK. Qed.
 
@@ -156,19 +158,6 @@ Proof.
   - intros r Hin Hsid Hk. destruct (K5 e HK r i Hin Hsid) as (s0 & E0 & W0 & R0).
     assert (s0 = s). { unfold get_stream, table in *. rewrite Hk in E0. congruence. } subst s0.
     rewrite Hw, Hr. auto.
-Qed.
-
-Lemma K_complete_read : forall e k i p, K e -> K (complete_read e k i p).
-Proof. intros e k i p HK. unfold complete_read. apply K_add_event. apply K_upd_neutral; [exact HK|]. intros s. reflexivity. Qed.
-
-Lemma K_read_iter : forall e k i s p e', K e -> get_stream e k i = Some s -> read_iter e k i s p = Some e' -> K e'.
-Proof.
-  intros e k i s p e' HK E H. unfold read_iter in H. destruct (read_iter_s s p) as [|s' rel done] eqn:Er; [discriminate|].
-  inversion H; subst e'. clear H.
-  assert (Hm : K (fold_left release rel (upd_stream e k i (fun _ => s')))).
-  { apply K_fold_release. apply (K_upd_const_neutral e k i s s' HK E).
-    destruct (read_iter_s_ctl _ _ _ _ _ Er) as (A & B & C). unfold sctl. congruence. }
-  destruct done; [|exact Hm]. destruct (s_pread s'); [|exact Hm]. apply K_complete_read. exact Hm.
 Qed.
 
 Lemma K_deliver : forall e k i f, K e -> K (deliver e k i f).
@@ -304,6 +293,22 @@ Proof.
   - intros i Hs. rewrite C in Hs. destruct (K5 e HK r i Hin Hs) as (s & E0 & W0 & R0). exists s. auto.
   - intros i Hs Hl. left. rewrite C in Hs. auto.
 Qed.
+Lemma K_complete_read : forall e k i p, K e -> K (complete_read e k i p).
+Proof.
+  intros e k i p HK. unfold complete_read. apply K_add_event.
+  apply K_upd_slot_weaken; [|intros r; cbn; repeat split; auto]. apply K_upd_neutral; [exact HK|]. intros s. reflexivity.
+Qed.
+
+Lemma K_read_iter : forall e k i s p e', K e -> get_stream e k i = Some s -> read_iter e k i s p = Some e' -> K e'.
+Proof.
+  intros e k i s p e' HK E H. unfold read_iter in H. destruct (read_iter_s s p) as [|s' rel done] eqn:Er; [discriminate|].
+  inversion H; subst e'. clear H.
+  assert (Hm : K (fold_left release rel (upd_stream e k i (fun _ => s')))).
+  { apply K_fold_release. apply (K_upd_const_neutral e k i s s' HK E).
+    destruct (read_iter_s_ctl _ _ _ _ _ Er) as (A & B & C). unfold sctl. congruence. }
+  destruct done; [|exact Hm]. destruct (s_pread s'); [|exact Hm]. apply K_complete_read. exact Hm.
+Qed.
+
 Lemma get_same_table : forall e k k' i, (k =? 0) = (k' =? 0) -> get_stream e k i = get_stream e k' i.
 Proof. intros e k k' i H. unfold get_stream, table. rewrite H. reflexivity. Qed.
 
@@ -391,7 +396,7 @@ Lemma K_handover : forall e k i s x, K e -> get_stream e k i = Some s ->
   K (handover e k i x).
 Proof.
   intros e k i s x HK E Hw Hr Hni Hkc. unfold handover. apply K_add_event.
-  set (f := fun s => set_wph (set_rph s RApp) WApp).
+  set (f := fun s => g_reader (set_wph (set_rph s RApp) WApp)).
   assert (H1 : K (upd_stream e k i f)).
   { apply (K_upd_stream e k i s f HK E).
     - intros q Hin Hi Hk. exfalso. exact (Hni q Hin Hk Hi).
@@ -435,6 +440,24 @@ Proof.
     + intros q Hin Ekq. unfold e1 in Hin. rewrite qs_upd_stream in Hin. apply Hni; [exact Hin|rewrite Ekq; exact Ek0].
 Qed.
 
+Lemma get_emit_frames : forall ps e k i k' i', get_stream (emit_frames e k i ps) k' i' = get_stream e k' i'.
+Proof.
+  unfold emit_frames. induction ps as [|p ps IH]; intros e k i k' i'; cbn [fold_left]; [reflexivity|]. rewrite IH. apply get_emit.
+Qed.
+Lemma slots_emit : forall e h d, e_slots (emit e h d) = e_slots e.
+Proof. intros. unfold emit. destruct (e_gone e); [reflexivity|]. destruct d; reflexivity. Qed.
+Lemma qs_emit : forall e h d, e_qs (emit e h d) = e_qs e.
+Proof. intros. unfold emit. destruct (e_gone e); [reflexivity|]. destruct d; reflexivity. Qed.
+Lemma slots_emit_frames : forall ps e k i, e_slots (emit_frames e k i ps) = e_slots e.
+Proof. unfold emit_frames. induction ps as [|p ps IH]; intros e k i; cbn [fold_left]; [reflexivity|]. rewrite IH. apply slots_emit. Qed.
+Lemma slots_emit_data : forall ps e k i, e_slots (emit_data e k i ps) = e_slots e.
+Proof. intros. unfold emit_data. rewrite slots_upd_stream. apply slots_emit_frames. Qed.
+Lemma get_emit_data_same : forall ps e k i, get_stream (emit_data e k i ps) k i =
+  option_map (fun s => g_sent s ps) (get_stream e k i).
+Proof. intros. unfold emit_data. rewrite (get_upd_same _ k i _ k i (conj eq_refl eq_refl)), get_emit_frames. reflexivity. Qed.
+Lemma get_emit_data_other : forall ps e k i k' i', other k i k' i' -> get_stream (emit_data e k i ps) k' i' = get_stream e k' i'.
+Proof. intros. unfold emit_data. rewrite get_upd_other by assumption. apply get_emit_frames. Qed.
+
 Lemma K_send_close : forall e k i s, K e -> get_stream e k i = Some s -> s_wph s = WApp ->
   (forall r, In r (e_slots e) -> sl_sid r = Some i -> (sl_kind r =? 0) = (k =? 0) -> sl_w r = false) ->
   K (send_close e k i).
@@ -442,21 +465,21 @@ Proof.
   intros e k i s HK E Hw Hnw. unfold send_close. rewrite E.
   set (e1 := match s_wbuf s with [] => e | b => emit_data e k i [b] end).
   assert (H1 : K e1) by (unfold e1; destruct (s_wbuf s); [exact HK|apply K_emit_data; exact HK]).
-  assert (G1 : forall k' i', get_stream e1 k' i' = get_stream e k' i').
-  { intros. unfold e1. destruct (s_wbuf s); [reflexivity|]. unfold emit_data. cbn [fold_left]. apply get_emit. }
-  assert (S1 : e_slots e1 = e_slots e).
-  { unfold e1. destruct (s_wbuf s); [reflexivity|]. unfold emit_data, emit. cbn [fold_left]. destruct (e_gone e); reflexivity. }
+  assert (G1 : exists s1, get_stream e1 k i = Some s1 /\ s_wph s1 = WApp).
+  { unfold e1. destruct (s_wbuf s); [exists s; auto|]. rewrite get_emit_data_same, E. cbn [option_map]. eexists. split; [reflexivity|exact Hw]. }
+  destruct G1 as (s1 & G1 & Hw1).
+  assert (S1 : e_slots e1 = e_slots e) by (unfold e1; destruct (s_wbuf s); [reflexivity|apply slots_emit_data]).
   set (e2 := upd_stream e1 k i (fun s => set_wbuf s [])).
   assert (H2 : K e2) by (apply K_upd_neutral; [exact H1|intros s0; reflexivity]).
-  assert (G2 : get_stream e2 k i = Some (set_wbuf s [])).
-  { unfold e2. rewrite (get_upd_same e1 k i _ k i (conj eq_refl eq_refl)), G1, E. reflexivity. }
+  assert (G2 : get_stream e2 k i = Some (set_wbuf s1 [])).
+  { unfold e2. rewrite (get_upd_same e1 k i _ k i (conj eq_refl eq_refl)), G1. reflexivity. }
   set (e3 := emit e2 _ None).
-  apply (K_after_close e3 k i (set_wbuf s [])).
+  apply (K_after_close e3 k i (set_wbuf s1 [])).
   - apply K_emit. exact H2.
   - unfold e3. rewrite get_emit. exact G2.
-  - exact Hw.
+  - exact Hw1.
   - intros r Hin. assert (Hin' : In r (e_slots e)).
-    { unfold e3, emit in Hin. destruct (e_gone e2); cbn [set_fail set_out e_slots] in Hin; unfold e2 in Hin; rewrite slots_upd_stream, S1 in Hin; exact Hin. }
+    { unfold e3 in Hin. rewrite slots_emit in Hin. unfold e2 in Hin. rewrite slots_upd_stream, S1 in Hin. exact Hin. }
     apply Hnw. exact Hin'.
 Qed.
 
@@ -491,9 +514,9 @@ Proof.
       + intros q Hin Hk. apply (not_in_idle e k i s q HK E); [rewrite Ew; discriminate|exact Hin|exact Hk].
       + intros r Hin Hid. apply (K4j e HK k i s slot r E Ew Hin Hid). }
   assert (Hdisc : forall f t, s_rph s = RDiscard -> s_inq s = f :: t ->
-            K (release (upd_stream e k i (fun _ => if fkind f =? FK_OPEN then set_rph (set_inq s t) RReady else set_inq s t)) f)).
+            K (release (upd_stream e k i (fun _ => if fkind f =? FK_OPEN then g_open_seen (set_rph (set_inq s t) RReady) else set_inq s t)) f)).
   { intros f t Er Eq. apply K_release.
-    set (s2 := if fkind f =? FK_OPEN then set_rph (set_inq s t) RReady else set_inq s t).
+    set (s2 := if fkind f =? FK_OPEN then g_open_seen (set_rph (set_inq s t) RReady) else set_inq s t).
     assert (Hc : s_cap s2 = s_cap s /\ s_wph s2 = s_wph s) by (unfold s2; destruct (fkind f =? FK_OPEN); split; reflexivity).
     destruct Hc as [Hc Hw2].
     apply (K_upd_stream e k i s (fun _ => s2) HK E).
@@ -513,6 +536,36 @@ Qed.
 Lemma get_upd_queue : forall e k c g k' i', get_stream (upd_queue e k c g) k' i' = get_stream e k' i'.
 Proof. reflexivity. Qed.
 
+Lemma K_pop_push : forall e q i idle x pend, K e -> In q (e_qs e) -> q_idle q = i :: idle -> q_pend q = x :: pend ->
+  K (upd_stream (emit (upd_queue e (q_kind q) (q_cap q) (fun _ => mkQueue (q_kind q) (q_cap q) idle pend)) (mk_header FK_OPEN (kind_bits (q_kind q)) i) None)
+                (q_kind q) i (fun s0 => g_push (set_wph s0 (WJoin x)) x)).
+Proof.
+  intros e q i idle x pend HK Hin Ei Ep.
+  destruct (K_pop e q i idle x pend HK Hin Ei Ep) as [H1 Hni].
+  set (e1 := upd_queue e (q_kind q) (q_cap q) (fun _ => mkQueue (q_kind q) (q_cap q) idle pend)) in *.
+  set (e2 := emit e1 (mk_header FK_OPEN (kind_bits (q_kind q)) i) None) in *.
+  assert (H2 : K e2) by (apply K_emit; exact H1).
+  assert (Hi : In i (q_idle q)) by (rewrite Ei; left; reflexivity).
+  assert (Hx : In x (q_pend q)) by (rewrite Ep; left; reflexivity).
+  destruct (K3 e HK q i Hin Hi) as (s & E & W & C & R).
+  assert (E2 : get_stream e2 (q_kind q) i = Some s) by (unfold e2; rewrite get_emit; exact E).
+  assert (S2 : e_slots e2 = e_slots e) by (unfold e2, emit; destruct (e_gone e1); reflexivity).
+  assert (Q2 : e_qs e2 = e_qs e1) by (unfold e2, emit; destruct (e_gone e1); reflexivity).
+  assert (Hkc : forall r, In r (e_slots e2) -> sl_id r = x -> sl_kind r = q_kind q).
+  { intros r Hr Hid. rewrite S2 in Hr. apply (K4p e HK q x r Hin Hx Hr Hid). }
+  assert (Hni2 : forall q', In q' (e_qs e2) -> (q_kind q' =? 0) = (q_kind q =? 0) -> ~ In i (q_idle q')).
+  { intros q' Hq'. rewrite Q2 in Hq'. apply Hni. exact Hq'. }
+  apply (K_upd_stream e2 (q_kind q) i s _ H2 E2).
+  + intros q' Hq' Hi' Hk'. exfalso. apply (Hni2 q' Hq'); [exact Hk'|exact Hi'].
+  + intros y Hy. cbn [g_push set_g set_wph s_wph] in Hy. inversion Hy; subst y. right. split.
+    * rewrite S2. apply (K4e e HK q x Hin Hx).
+    * intros r Hr Hid. rewrite (Hkc r Hr Hid). reflexivity.
+  + intros r Hr Hs Hk. rewrite S2 in Hr. cbn [g_push set_g set_wph s_wph s_rph]. split.
+    * intros Hwr. rewrite (no_w_slot e (q_kind q) i s r HK E) in Hwr; try assumption; [discriminate|rewrite W; discriminate].
+    * intros Hrr. destruct (K5 e HK r i Hr Hs) as (s0 & E0 & _ & R0).
+      rewrite (get_same_table e _ _ i Hk) in E0. assert (s0 = s) by congruence. subst s0. exact (R0 Hrr).
+Qed.
+
 Lemma K_queue_step : forall e q e', K e -> In q (e_qs e) -> queue_step e q = Some e' -> K e'.
 Proof.
   intros e q e' HK Hin H. unfold queue_step in H. destruct (q_idle q) as [|i idle] eqn:Ei; [discriminate|].
@@ -531,19 +584,26 @@ Proof.
   { intros r Hr Hid. rewrite S2 in Hr. apply (K4p e HK q x r Hin Hx Hr Hid). }
   assert (Hni2 : forall q', In q' (e_qs e2) -> (q_kind q' =? 0) = (q_kind q =? 0) -> ~ In i (q_idle q')).
   { intros q' Hq'. rewrite Q2 in Hq'. apply Hni. exact Hq'. }
-  destruct (q_kind q =? 0) eqn:Ek; inversion H; subst e'.
-  - apply (K_handover e2 (q_kind q) i s x H2 E2); [rewrite W; discriminate|rewrite (R eq_refl); discriminate| |].
-    + intros q' Hq' Hk'. apply Hni2; [exact Hq'|rewrite Hk', Ek; reflexivity].
-    + intros r Hr Hid. rewrite (Hkc r Hr Hid). reflexivity.
-  - apply (K_upd_stream e2 (q_kind q) i s _ H2 E2).
-    + intros q' Hq' Hi' Hk'. exfalso. apply (Hni2 q' Hq'); [rewrite Hk', Ek; reflexivity|exact Hi'].
-    + intros y Hy. cbn [set_wph s_wph] in Hy. inversion Hy; subst y. right. split.
+  set (f3 := fun s0 : rstream => g_push (set_wph s0 (WJoin x)) x).
+  set (e3 := upd_stream e2 (q_kind q) i f3) in *.
+  assert (H3 : K e3).
+  { apply (K_upd_stream e2 (q_kind q) i s _ H2 E2).
+    + intros q' Hq' Hi' Hk'. exfalso. apply (Hni2 q' Hq'); [exact Hk'|exact Hi'].
+    + intros y Hy. cbn [f3 g_push set_g set_wph s_wph] in Hy. inversion Hy; subst y. right. split.
       * rewrite S2. apply (K4e e HK q x Hin Hx).
       * intros r Hr Hid. rewrite (Hkc r Hr Hid). reflexivity.
-    + intros r Hr Hs Hk. rewrite S2 in Hr. cbn [set_wph s_wph s_rph]. split.
+    + intros r Hr Hs Hk. rewrite S2 in Hr. cbn [f3 g_push set_g set_wph s_wph s_rph]. split.
       * intros Hwr. rewrite (no_w_slot e (q_kind q) i s r HK E) in Hwr; try assumption; [discriminate|rewrite W; discriminate].
       * intros Hrr. destruct (K5 e HK r i Hr Hs) as (s0 & E0 & _ & R0).
-        rewrite (get_same_table e _ _ i Hk) in E0. assert (s0 = s) by congruence. subst s0. exact (R0 Hrr).
+        rewrite (get_same_table e _ _ i Hk) in E0. assert (s0 = s) by congruence. subst s0. exact (R0 Hrr). }
+  assert (E3 : get_stream e3 (q_kind q) i = Some (f3 s)).
+  { unfold e3. rewrite (get_upd_same e2 _ i _ _ i (conj eq_refl eq_refl)), E2. reflexivity. }
+  destruct (q_kind q =? 0) eqn:Ek; inversion H; subst e'; [|exact H3].
+  apply (K_handover e3 (q_kind q) i (f3 s) x H3 E3).
+  - cbn. discriminate.
+  - cbn [f3 g_push set_g set_wph s_rph]. rewrite (R eq_refl). discriminate.
+  - intros q' Hq' Hk'. unfold e3 in Hq'. rewrite qs_upd_stream in Hq'. apply Hni2; [exact Hq'|rewrite Hk', Ek; reflexivity].
+  - intros r Hr Hid. unfold e3 in Hr. rewrite slots_upd_stream in Hr. rewrite (Hkc r Hr Hid). rewrite Ek. reflexivity.
 Qed.
 Lemma K_drain_step : forall e k i e', K e -> drain_step e k i = Some e' -> K e'.
 Proof.
@@ -622,7 +682,7 @@ Proof.
     apply K_upd_neutral; [apply K_emit_data; exact HK|intros s0; reflexivity].
   - (* read *) destruct (sl_r r && negb _); [|apply K_skip; exact HK]. unfold op_read. apply K_upd_neutral; [exact HK|intros s0; reflexivity].
   - (* dropw *) destruct (sl_w r) eqn:Ew; [|apply K_skip; exact HK]. unfold op_dropw.
-    set (g := fun r0 => mkSlot (sl_id r0) (sl_kind r0) (sl_sid r0) (sl_r r0) false (sl_woff r0)).
+    set (g := fun r0 => mkSlot (sl_id r0) (sl_kind r0) (sl_sid r0) (sl_r r0) false (sl_woff r0) (sl_g r0)).
     assert (H1 : K (upd_slot e (sl_id r) g)) by (apply K_upd_slot_weaken; [exact HK|intros r0; cbn; repeat split; auto; intros Hx; discriminate Hx]).
     destruct (K5 e HK r i Hin Es) as (s0 & E0 & W0 & _). assert (s0 = s) by congruence. subst s0.
     apply (K_send_close (upd_slot e (sl_id r) g) (sl_kind r) i s H1 E (W0 Ew)).
@@ -631,7 +691,7 @@ Proof.
     assert (Hl : live r = true) by (unfold live; rewrite Ew; apply orb_true_r).
     pose proof (Hexcl r0 Hin0 Ex Hs' Hk' Hl) as Hl0. unfold live in Hl0. apply orb_false_elim in Hl0. tauto.
   - (* dropr *) destruct (sl_r r) eqn:Er; cbn [andb]; [|apply K_skip; exact HK]. destruct (negb _); [|apply K_skip; exact HK]. unfold op_dropr.
-    set (g := fun r0 => mkSlot (sl_id r0) (sl_kind r0) (sl_sid r0) false (sl_w r0) (sl_woff r0)).
+    set (g := fun r0 => mkSlot (sl_id r0) (sl_kind r0) (sl_sid r0) false (sl_w r0) (sl_woff r0) (sl_g r0)).
     set (e1 := upd_slot e (sl_id r) g).
     assert (H1 : K e1) by (apply K_upd_slot_weaken; [exact HK|intros r0; cbn; repeat split; auto; intros Hx; discriminate Hx]).
     set (e2 := match s_cache s with Some f => release e1 f | None => e1 end).
@@ -658,7 +718,7 @@ Qed.
 Lemma K_op_open : forall e kind cap slot, K e -> ~ In slot (map sl_id (e_slots e)) -> K (op_open e kind cap slot).
 Proof.
   intros e kind cap slot HK Hfresh. unfold op_open.
-  set (new := mkSlot slot kind None false false 0).
+  set (new := mkSlot slot kind None false false 0 (mkLG [] O false)).
   set (e1 := set_slots e (e_slots e ++ [new])).
   assert (Hin1 : forall r, In r (e_slots e1) -> In r (e_slots e) \/ r = new).
   { intros r Hr. unfold e1 in Hr. cbn [set_slots e_slots] in Hr. apply in_app_or in Hr. destruct Hr as [Hr|[Hr|[]]]; auto. }
@@ -716,36 +776,29 @@ Proof.
   intros l i s H. apply nth_error_In in H. apply in_map_iff in H. destruct H as (c & <- & _). exists c. reflexivity.
 Qed.
 
-Lemma get_emit_data : forall ps e k i k' i', get_stream (emit_data e k i ps) k' i' = get_stream e k' i'.
-Proof.
-  unfold emit_data. induction ps as [|p ps IH]; intros e k i k' i'; cbn [fold_left]; [reflexivity|]. rewrite IH. apply get_emit.
-Qed.
-
 Lemma get_send_close_other : forall e k i k' i', other k i k' i' -> get_stream (send_close e k i) k' i' = get_stream e k' i'.
 Proof.
   intros e k i k' i' Ho. unfold send_close. destruct (get_stream e k i) as [s|] eqn:E; [|reflexivity].
-  unfold after_close. rewrite get_emit.
-  assert (G : forall e0, get_stream (upd_stream e0 k i (fun s0 => set_wbuf s0 [])) k i =
-                         option_map (fun s0 => set_wbuf s0 []) (get_stream e0 k i)).
-  { intros e0. apply get_upd_same. split; reflexivity. }
+  unfold after_close.
   set (e1 := match s_wbuf s with [] => e | b => emit_data e k i [b] end).
-  assert (G1 : forall k0 i0, get_stream e1 k0 i0 = get_stream e k0 i0).
-  { intros. unfold e1. destruct (s_wbuf s); [reflexivity|apply get_emit_data]. }
-  rewrite G, G1, E. cbn [option_map].
+  assert (G1 : get_stream e1 k' i' = get_stream e k' i').
+  { unfold e1. destruct (s_wbuf s); [reflexivity|apply get_emit_data_other; exact Ho]. }
+  set (e3 := emit (upd_stream e1 k i (fun s0 => set_wbuf s0 [])) _ None).
+  assert (G3 : get_stream e3 k' i' = get_stream e k' i').
+  { unfold e3. rewrite get_emit, get_upd_other by exact Ho. exact G1. }
+  destruct (get_stream e3 k i) as [s3|]; [|exact G3].
   destruct (k =? 0) eqn:Ek.
-  - rewrite get_upd_other by exact Ho. rewrite get_emit, get_upd_other by exact Ho. apply G1.
-  - rewrite get_enqueue_idle. rewrite get_upd_other by exact Ho. rewrite get_emit, get_upd_other by exact Ho. apply G1.
+  - rewrite get_upd_other by exact Ho. exact G3.
+  - rewrite get_enqueue_idle. rewrite get_upd_other by exact Ho. exact G3.
 Qed.
 
 Lemma slots_send_close : forall e k i, e_slots (send_close e k i) = e_slots e.
 Proof.
   intros e k i. unfold send_close. destruct (get_stream e k i) as [s|]; [|reflexivity]. unfold after_close.
   set (e1 := match s_wbuf s with [] => e | b => emit_data e k i [b] end).
-  assert (S1 : e_slots e1 = e_slots e).
-  { unfold e1. destruct (s_wbuf s); [reflexivity|]. unfold emit_data, emit. cbn [fold_left]. destruct (e_gone e); reflexivity. }
+  assert (S1 : e_slots e1 = e_slots e) by (unfold e1; destruct (s_wbuf s); [reflexivity|apply slots_emit_data]).
   set (e3 := emit _ _ None).
-  assert (S3 : e_slots e3 = e_slots e).
-  { unfold e3, emit. destruct (e_gone _); cbn [set_fail set_out e_slots]; rewrite slots_upd_stream; exact S1. }
+  assert (S3 : e_slots e3 = e_slots e) by (unfold e3; rewrite slots_emit, slots_upd_stream; exact S1).
   destruct (get_stream e3 k i); [|exact S3]. destruct (k =? 0).
   - rewrite slots_upd_stream. exact S3.
   - unfold enqueue_idle, upd_queue. cbn [set_qs e_slots]. rewrite slots_upd_stream. exact S3.
